@@ -13,7 +13,7 @@ Case (ints):  symb sgn pb P lo hi   dkind n params(n)...   ops...
                           hint kinds: 0 value as f64, 1 NaN, 2 +inf, 3 -inf, 4 value + 0.5
        3 a b c d m      quantile_function(q) for ALL q < 2^P (P <= 12), hint(q) = c + ((a*q+b) div d) mod m
                           -> r (count st s c p)*r   runs of identical results for consecutive quantiles
-       4                symbol_table().collect()                -> -5 | r (count 0 s0 c0 p)*r
+       4                symbol_table(): size_hint().0, then all items   -> -5 | hint r (count 0 s0 c0 p)*r
        6                encoder on every symbol lo..=hi         -> r (count st s0 c0 p)*r
                           table runs: `count` consecutive symbols from s0 with the same st and p and left
                           cumulatives c0, c0+p, c0+2p, ...
@@ -185,7 +185,7 @@ def _expand_ap(rs):
 def parse_out(inp, out):
     """-> dict(special, dbg, fw, nl, hyp, results=[(op, args, res)], off) ; raises on malformed output."""
     cs = parse_case(inp)
-    r = dict(cs=cs, special=None, dbg=None, fw=None, nl=None, hyp=None, results=[], off=None)
+    r = dict(cs=cs, special=None, dbg=None, fw=None, nl=None, hyp=None, results=[], off=None, hints=[])
     if len(out) == 1 and out[0] in (PANIC, ABORT, TIMEOUT, FOREIGN):
         r["special"] = out[0]
         return r
@@ -226,8 +226,11 @@ def parse_out(inp, out):
                 r["results"].append((4, None, None))
                 o += 1
             else:
-                rs, o = _runs(out, o)
-                r["results"].append((4, None, [(s, c, p) for st, s, c, p in _expand_ap(rs)]))
+                hint = out[o]           # lower bound of symbol_table().size_hint()
+                rs, o = _runs(out, o + 1)
+                tbl = [(s, c, p) for st, s, c, p in _expand_ap(rs)]
+                r["results"].append((4, None, tbl))
+                r["hints"].append((hint, len(tbl)))
             i += 1
         elif op == 6:
             rs, o = _runs(out, o)
@@ -412,6 +415,9 @@ def oracle_C05(inp, out):
     if it is None:
         return None
     cs = r["cs"]
+    for hint, n in r["hints"]:
+        if hint > n:
+            return "symbol_table().size_hint() promises at least %d items, the iterator yields %d" % (hint, n)
     if [e[0] for e in it] != list(range(cs["lo"], cs["hi"] + 1)):
         return "symbol_table() does not enumerate the support in order"
     if direct is not None:
